@@ -59,13 +59,13 @@ def _build(name):
         return Union('C13', [(3, a), (1, r)], quick_runs=5000, thorough_runs=150000, batch=40)
     if name == 'C11':
         a = AH.ArrayHistory()
-        a.oracles = ('ro', 'model', 'fresh', 'outcome')
+        a.oracles = ('ro', 'model', 'fresh')
         a.weights = dict(append=14, iterappend=8, setitem=14, truncate=10, mode=14, reopen=10,
                          append_bad=2, truncate_bad=0, meta=22, recreate=0, delete=4, iterappend_fail=2, iterbreak=6, metamode=5)
         a.reopen_modes = ('r', 'default', 'default', 'r+')
         a.create_r_p = 0.5
         r = RH.RaggedHistory()
-        r.oracles = ('ro', 'model', 'fresh', 'outcome')
+        r.oracles = ('ro', 'model', 'fresh')
         r.weights = dict(append=18, iterappend=10, truncate=12, mode=14, reopen=10, append_bad=2,
                          truncate_bad=0, getbad=0, iter=0, meta=22, delete=4, iterappend_fail=2, metamode=5)
         r.reopen_modes = ('r', 'default', 'default', 'r+')
